@@ -278,6 +278,31 @@ impl Scenario for TrioScn {
                     }
                 }
             }
+            if !c07 && _depth <= 1 && h.root.fees.protocol > 0 {
+                // a swap sized (by bisection on the pool's own Simulation, which is monotone in the offer) so that the
+                // protocol fee owed in asset 1 lands exactly on the collection threshold of 1000
+                if let Ok(pending) = trio_fees(w, &h.trio.addr, false) {
+                    if pending[1] < 1000 {
+                        let target = 1000 - pending[1];
+                        let fee_of = |amt: u128| -> Option<u128> {
+                            let sim: Result<SimulationResponse, String> = w.query(&h.trio.addr, &TrioQuery::Simulation { offer_asset: asset(&h.trio.assets[0], amt), ask_asset: asset(&h.trio.assets[1], 0) });
+                            sim.ok().map(|s| s.protocol_fee_amount.u128())
+                        };
+                        let (mut lo, mut hi) = (1u128, res[0].saturating_mul(4).max(2));
+                        while lo < hi {
+                            let mid = lo + (hi - lo) / 2;
+                            match fee_of(mid) {
+                                Some(f) if f >= target => hi = mid,
+                                Some(_) => lo = mid + 1,
+                                None => hi = mid,
+                            }
+                        }
+                        if fee_of(lo) == Some(target) {
+                            v.push(TAct::Swap { user: ALICE.to_string(), from: 0, to: 1, amount: lo.to_string() });
+                        }
+                    }
+                }
+            }
             if !c07 {
                 v.push(TAct::Swap { user: BOB.to_string(), from: 0, to: 2, amount: (res[0] / 100).max(2).to_string() });
                 v.push(TAct::Swap { user: CAROL.to_string(), from: 2, to: 1, amount: (res[2] / 100).max(2).to_string() });
@@ -663,6 +688,9 @@ impl Scenario for TrioScn {
                 if self.probe == Probe::SimEqExec && supply > 0 {
                     self.probe_sim(w, h, res, cx);
                 }
+                if self.probe == Probe::Spread && supply > 0 {
+                    self.probe_spread(w, h, res, cx);
+                }
             }
         }
         self.keep_own(cx);
@@ -674,6 +702,7 @@ impl TrioScn {
         let prefixes: &[&str] = match self.property.as_str() {
             "C07" => &["collect.", "ledger.", "burn."],
             "C14" => &["sim_eq_exec."],
+            "C15" => &["spread."],
             _ => return,
         };
         cx.violations.retain(|v| prefixes.iter().any(|p| v.oracle.starts_with(p)));
@@ -699,6 +728,65 @@ pub fn slope_dust(amp: u64, r: &[u128; 3]) -> U1024 {
 }
 
 impl TrioScn {
+    /// C15: every (max_spread, belief) pair on every direction (native offers and the cw20 Send hook): the swap
+    /// succeeds iff within the documented limit judged on the amounts the pool itself quotes
+    fn probe_spread(&self, w: &mut World, h: &TH, res: [u128; 3], cx: &mut Cx) {
+        let t = &h.trio;
+        let snap = w.kv_clone();
+        let spreads: Vec<Option<u128>> = vec![None, Some(0), Some(ONE18 / 200), Some(ONE18 / 100), Some(ONE18 / 2), Some(ONE18 / 2 + 1), Some(2 * ONE18)];
+        for from in 0..3usize {
+            for to in 0..3usize {
+                if from == to || res[from] == 0 || res[to] == 0 {
+                    continue;
+                }
+                let r = res[from];
+                let mut amts = vec![999u128, 1_000_000, (r / 10).max(2), r.max(3)];
+                amts.sort();
+                amts.dedup();
+                for amt in amts {
+                    let sim: Result<SimulationResponse, String> = w.query(&t.addr, &TrioQuery::Simulation { offer_asset: asset(&t.assets[from], amt), ask_asset: asset(&t.assets[to], 0) });
+                    let s = match sim {
+                        Ok(s) => s,
+                        Err(_) => continue,
+                    };
+                    let gross = s.return_amount.u128() + s.swap_fee_amount.u128() + s.protocol_fee_amount.u128() + s.burn_fee_amount.u128();
+                    let spread = s.spread_amount.u128();
+                    let mut beliefs: Vec<Option<u128>> = vec![None];
+                    if gross > 0 && b(amt) * b(ONE18) / b(gross) <= b(u128::MAX / 4) {
+                        let px = (b(amt) * b(ONE18) / b(gross)).low_u128();
+                        if px > 0 {
+                            beliefs.push(Some(px));
+                            beliefs.push(Some(px / 2 + 1));
+                            beliefs.push(Some(px.saturating_mul(2)));
+                        }
+                    }
+                    for ms in &spreads {
+                        for bp in &beliefs {
+                            let r = trio_swap(w, t, MALLORY, from, to, amt, bp.map(dec), ms.map(dec));
+                            cx.count("probe:spread");
+                            let verdict = refmath::spread_verdict(amt, gross, spread, *ms, *bp);
+                            match (&r, verdict) {
+                                (Ok(_), refmath::Spread::MustReject) => cx.check("spread.accepted_only_within_limit", false, || {
+                                    format!("3pool swap {}->{} offer {} gross {} spread {} max_spread {:?} belief {:?} succeeded but exceeds the limit", from, to, amt, gross, spread, ms, bp)
+                                }),
+                                (Err(e), refmath::Spread::MustAccept) if e.msg().contains("Spread limit exceeded") => cx.check("spread.not_rejected_within_limit", false, || {
+                                    format!("3pool swap {}->{} offer {} gross {} spread {} max_spread {:?} belief {:?} rejected for slippage although within the limit", from, to, amt, gross, spread, ms, bp)
+                                }),
+                                (Ok(_), _) => cx.count("probe:spread:accepted"),
+                                (Err(e), _) => {
+                                    if e.msg().contains("Spread limit exceeded") {
+                                        cx.count("probe:spread:rejected_for_spread");
+                                    }
+                                }
+                            }
+                            w.kv_restore(&snap);
+                        }
+                    }
+                }
+            }
+        }
+    }
+
     fn probe_sim(&self, w: &mut World, h: &TH, res: [u128; 3], cx: &mut Cx) {
         let t = &h.trio;
         let snap = w.kv_clone();
